@@ -629,6 +629,9 @@ func c03Corrupt(r *Rng, pk []Sx, dest []*c03N) ([]Sx, string) {
 		case 0:
 			return c03Insert(pk, at, L(N(0))), "extra-terminator"
 		case 1:
+			if len(pk) == 0 {
+				return []Sx{L(N(0)), c03StatPk(c03RandStat(r, "zzz"))}, "stat-after-end"
+			}
 			return append(pk[:len(pk)-1:len(pk)-1], c03StatPk(c03RandStat(r, "zzz")), pk[len(pk)-1]), "stat-after-end"
 		case 2:
 			return c03Insert(pk, at, L(N(2))), "fin-anywhere"
@@ -710,7 +713,7 @@ func c03Case(r *Rng) (Sx, string, bool) {
 			outLinks++
 		}
 	}
-	in := L(c03SetupOps(dest, outsideHL), S(Pick(r, c03DestStrings)), L(pk...))
+	in := L(c03SetupOps(dest, outsideHL), S(Pick(r, c03DestStrings)), L(pk...), Bool(r.Chance(25)))
 	return in, class, outLinks >= 1 && len(pk) >= 3
 }
 
@@ -737,7 +740,7 @@ func c03Directed() []Sx {
 	lstat := func(p, t string, xa map[string][]byte) Sx {
 		return c03StatPk(&types.Stat{Path: p, Mode: uint32(os.ModeSymlink | 0777), Linkname: t, ModTime: 1e18, Xattrs: xa})
 	}
-	mk := func(d string, pk ...Sx) Sx { return L(setup, S(d), L(pk...)) }
+	mk := func(d string, pk ...Sx) Sx { return L(setup, S(d), L(pk...), Bool(false)) }
 	return []Sx{
 		// F1: STAT ".." (a directory) / STAT "." (a symlink) were accepted: dest's parent / dest itself replaced
 		mk("/w/dest", dstat(".."), end, fin),
@@ -761,7 +764,11 @@ func c03Directed() []Sx {
 			c03StatPk(&types.Stat{Path: "oh", Mode: 0644, Size: 3, ModTime: int64(1e18) + 11}),
 			c03StatPk(&types.Stat{Path: "oi", Mode: 0777, Uid: 1000, Gid: 1000, Size: 3, ModTime: int64(1e18) + 99, Linkname: "oh",
 				Xattrs: map[string][]byte{"user.x": []byte("X")}}),
-			end, fin)),
+			end, fin), Bool(false)),
+		// the same shapes with ReceiveOpt.Merge
+		L(setup, S("/w/dest"), L(dstat(".."), end, fin), Bool(true)),
+		L(setup, S("/w/dest"), L(dstat("l"), fstat("l/g"), end, L(N(1), N(1), S("new")), L(N(1), N(1), B(nil)), fin), Bool(true)),
+		L(setup, S("/w/dest"), L(fstat("l/g"), end, fin), Bool(true)),
 	}
 }
 
